@@ -11,6 +11,6 @@ PROP = dict(
 )
 META = dict(
     technique="Lean 4 proof (induction over op histories with a specification ghost) + differential correspondence of the model with cell.go",
-    text="Theorems in Tcell.Props.C08 prove, for every buffer size, coordinate, rune, style and op history, storage (get/set, ColorNone merge, out-of-range, frame, Fill, Resize overlap), the reported-width invariant and dirty soundness against a ghost written from the property text. The hand-written model of cell.go is tied to the code by running random histories on both and comparing every GetContent/Dirty; an independent shadow oracle checks the statement on the real buffer.",
+    text="Theorems in Tcell.Props.C08 prove, for every buffer size, coordinate, rune, style and op history, storage (get/set, ColorNone merge, out-of-range, frame, Fill, Resize overlap), the reported-width invariant and dirty soundness against a ghost written from the property text. The hand-written model of cell.go is tied to the code by running random histories on both and comparing every GetContent/Dirty; an independent shadow oracle checks the statement on the real buffer. An empty combining list is passed both as a nil slice and as an empty non-nil one (`S … =`, what Screen.SetCell hands over): same list for model and oracle.",
     note="Trusted: Lean kernel, the model↔code correspondence (sampled), go-runewidth as regenerated table. Aliasing of the slice returned by GetContent is outside the model.",
 )
